@@ -322,8 +322,7 @@ def run(ctx):
                 ctx.add('terminator_offsets_mod_8192', f)
         judge_text(ctx, text, ['soup', ctx.shard, k], sigs)
         n += 1
-        if k == 1:
-            ctx.case(n=0, sample={'soup_head': text[:400], 'features': sorted(feats), 'length': len(text)})
+        ctx.sample({'soup_head': text[:400], 'features': sorted(feats), 'length': len(text)})
     ctx.case(n=n, sigs=sorted(sigs))
 
 
